@@ -53,6 +53,9 @@ int main(int argc, char** argv)
 			if (canon(back) != canon(root)) { printf("REPRODUCED decode(encode(tree)) differs (shape %d, texts %u/%u)\n  tree: %s\n  back: %s\n  text: %s\n", shape, t1, t2, canon(root).c_str(), canon(back).c_str(), *text); return 1; }
 			if (!all_parents_ok(back)) { printf("REPRODUCED parent links after decode(encode(tree))\n"); return 1; }
 		}
+		// an element with attributes and no children followed by text with markup characters (entity references right after a self-closing tag)
+		{ const char* tails[] = { "Tom & Jerry", "a<b", "x>y 'q' \"d\"", "&&&" }; for (const char* tl : tails) { Xml r("r"); Xml e("e"); e.setAttr("k", "v"); r << e << XmlText(tl) << Xml("z"); String text = Xml::encode(r, false); Xml back = Xml::decode(text);
+			if (!back || canon(back) != canon(r)) { printf("REPRODUCED decode(encode(tree)) differs for text '%s' after a self-closing element with an attribute: %s\n", tl, *text); return 1; } } }
 		// every byte in an attribute value and in text
 		for (int c = 1; c < 256; c++) { String v; v << 'a' << (char)c << 'b'; Xml e("item"); e.setAttr("v", v); e << XmlText(v); Xml back = Xml::decode(Xml::encode(e, false));
 			if (!back || back["v"] != v || back.text() != v) { printf("REPRODUCED byte 0x%02x is not preserved by encode/decode\n", c); return 1; } }
